@@ -525,4 +525,52 @@ example :
 private def pt : Perm := ⟨["T", "a"], ⟨1, 2, true, false⟩⟩
 example : (⟨1, 2, true, false⟩, [pt]) ∈ plan [pa, pt] [] [] [⟨1, 1, false, false⟩, ⟨1, 2, true, false⟩] := by decide
 
+/-! ### The instance of a permutation is a function of its config case, not of the suite's template -/
+
+/-- whatever the suite's request template carries in `server_tls_cert` / `client_tls_creds`, the
+instance read off the expanded request is the same -/
+theorem instance_ignores_template (c : CfgCase) (t₁ t₂ : Tmpl) :
+    instOfReq c (expandTmpl c t₁) = instOfReq c (expandTmpl c t₂) := by
+  simp [expandTmpl]
+
+/-- … namely the config case's own: TLS exactly when the case uses TLS, client certificates exactly
+when it uses TLS and the suite relies on them -/
+theorem instance_is_config_case (c : CfgCase) (t : Tmpl) :
+    instOfReq c (expandTmpl c t) = cfgInst c := by
+  cases c with
+  | mk p v tls certs => cases tls <;> cases certs <;> simp [expandTmpl, instOfReq, cfgInst]
+
+/-- the expanded request carries a certificate placeholder exactly under TLS and credentials only under TLS -/
+theorem expanded_request_fields (c : CfgCase) (t : Tmpl) :
+    (expandTmpl c t).cert = c.tls ∧ (expandTmpl c t).creds = (c.tls && c.certs) := by
+  cases c with
+  | mk p v tls certs => cases tls <;> cases certs <;> simp [expandTmpl]
+
+/-- a permutation whose instance is read off the expanded request is only ever planned in the batch of
+its config case's instance, whatever the template carried -/
+theorem planned_under_config_instance (perms : List Perm) (run skip : Node) (insts : List Inst) (i : Inst) (ps : List Perm)
+    (h : (i, ps) ∈ plan perms run skip insts) (name : List String) (c : CfgCase) (t : Tmpl)
+    (hp : (⟨name, instOfReq c (expandTmpl c t)⟩ : Perm) ∈ ps) : i = cfgInst c := by
+  have := (batch_matches_instance perms run skip insts i ps h).2 _ hp
+  rw [← instance_is_config_case c t]; exact this.symm
+
+/-- witness: with set-without-clear the instance depends on the template — a plaintext config case whose
+template carries a certificate and credentials lands under a TLS instance with client certificates -/
+theorem set_without_clear_depends_on_template :
+    ∃ (c : CfgCase) (t₁ t₂ : Tmpl), instOfReq c (expandTmplSetOnly c t₁) ≠ instOfReq c (expandTmplSetOnly c t₂) := by
+  exact ⟨⟨1, 1, false, false⟩, ⟨false, false⟩, ⟨true, true⟩, by decide⟩
+
+/-- `instance_ignores_template` / `instance_is_config_case` / `set_without_clear_depends_on_template`:
+a plaintext case and a TLS case without client certificates, template empty and template full -/
+example :
+    instOfReq ⟨1, 1, false, false⟩ (expandTmpl ⟨1, 1, false, false⟩ ⟨true, true⟩) = ⟨1, 1, false, false⟩ ∧
+    instOfReq ⟨1, 2, true, false⟩ (expandTmpl ⟨1, 2, true, false⟩ ⟨true, true⟩) = ⟨1, 2, true, false⟩ ∧
+    instOfReq ⟨1, 2, true, true⟩ (expandTmpl ⟨1, 2, true, true⟩ ⟨false, false⟩) = ⟨1, 2, true, true⟩ ∧
+    instOfReq ⟨1, 1, false, false⟩ (expandTmplSetOnly ⟨1, 1, false, false⟩ ⟨true, true⟩) = ⟨1, 1, true, true⟩ ∧
+    instOfReq ⟨1, 2, true, false⟩ (expandTmplSetOnly ⟨1, 2, true, false⟩ ⟨false, true⟩) = ⟨1, 2, true, true⟩ ∧
+    nameTLS ["S", "HTTPVersion:1", "TLS:false", "TLS:true"] = some false := by decide
+/-- `planned_under_config_instance`: a TLS case whose template is full, planned beside a plaintext permutation -/
+private def ptm : Perm := ⟨["T", "a"], instOfReq ⟨1, 2, true, false⟩ (expandTmpl ⟨1, 2, true, false⟩ ⟨true, true⟩)⟩
+example : (cfgInst ⟨1, 2, true, false⟩, [ptm]) ∈ plan [pa, ptm] [] [] [⟨1, 1, false, false⟩, ⟨1, 2, true, false⟩] := by decide
+
 end ConfModel.Props.C05
